@@ -47,6 +47,10 @@ type handler1 struct {
 	snRemoteAddr     net.Addr
 	mqttConn         *util.ConnWithContext
 	registeredTopics sync.Map // uint16 => string
+	// pendingTopicIDs holds the TopicIDs which the gateway has chosen for
+	// topic names it is registering at the client (REGISTER sent, REGACK
+	// not received yet). string => uint16
+	pendingTopicIDs sync.Map
 	predefinedTopics topics.PredefinedTopics
 	keepAlive        uint16
 	clientID         string
@@ -377,9 +381,19 @@ func (h *handler1) handleBrokerPublish(ctx context.Context, mqPublish *mqPkts.Pu
 	var snPkt snPkts.Packet
 	var nextState transactionState
 	if needsRegister {
-		topicID, err := h.newTopicID()
-		if err != nil {
-			return err
+		// Every message for a topic name which is still being
+		// registered must use the same TopicID: the client accepts
+		// only one TopicID for a topic name.
+		var topicID uint16
+		if pendingID, ok := h.pendingTopicIDs.Load(mqPublish.TopicName); ok {
+			topicID = pendingID.(uint16)
+		} else {
+			var err error
+			topicID, err = h.newTopicID()
+			if err != nil {
+				return err
+			}
+			h.pendingTopicIDs.Store(mqPublish.TopicName, topicID)
 		}
 
 		// snPublish will be sent after REGACK is received
@@ -572,6 +586,11 @@ func (h *handler1) registerTopic(topic string) (uint16, error) {
 	if topicID, ok := h.findRegisteredTopicID(topic); ok {
 		return topicID, nil
 	}
+	// The gateway itself is just registering the topic at the client.
+	if pendingID, ok := h.pendingTopicIDs.Load(topic); ok {
+		h.registeredTopics.Store(pendingID.(uint16), topic)
+		return pendingID.(uint16), nil
+	}
 	// New registration.
 	topicID, err := h.newTopicID()
 	if err != nil {
@@ -680,6 +699,11 @@ func (h *handler1) handleSubscribe(ctx context.Context, snSubscribe *snPkts1.Sub
 			// topic name the gateway and the client could pick
 			// different ones for the following PUBLISH packets.
 			topicID = registeredID
+		} else if pendingID, ok := h.pendingTopicIDs.Load(topic); ok {
+			// The same holds for a topic which the gateway itself
+			// is just registering at the client.
+			topicID = pendingID.(uint16)
+			h.registeredTopics.Store(topicID, topic)
 		} else if !hasWildcard(topic) {
 			var err error
 			topicID, err = h.newTopicID()
